@@ -298,7 +298,7 @@ func genC12(t *rapid.T) ReqCase {
 	if g.Chance(1, 2) {
 		o.FixedOrder = true
 		o.MaxAlts = 7
-		o.BigTiers = true
+		o.BigTiers, o.ValueScales = true, true
 	}
 	return mkReqCase(genHeuristicReq(t, o))
 }
@@ -527,7 +527,7 @@ func genC13(t *rapid.T) ReqCase {
 	if g.Chance(1, 2) {
 		o.FixedOrder = true
 		o.MaxAlts = 7
-		o.BigTiers = true
+		o.BigTiers, o.ValueScales = true, true
 	}
 	return mkReqCase(genHeuristicReq(t, o))
 }
